@@ -212,6 +212,7 @@ type Stats struct {
 	SolverUnknown int
 	CaseAsserting map[string]int // case label -> number of feasible paths that reached an assertion
 	CasePaths     map[string]int
+	SampleDraws   [][]DrawValue // witness inputs of passing paths (for differential validation)
 }
 
 type Explorer struct {
@@ -475,6 +476,13 @@ func (ex *Explorer) runPath(w *Worker, prefix []int) (in *Interp, res *PathResul
 		ex.mu.Unlock()
 		if want {
 			d := in.modelDraws()
+			if d != nil {
+				ex.mu.Lock()
+				if len(ex.stats.SampleDraws) < 4 {
+					ex.stats.SampleDraws = append(ex.stats.SampleDraws, d)
+				}
+				ex.mu.Unlock()
+			}
 			js, _ := json.Marshal(d)
 			if len(js) > 600 {
 				js = append(js[:600], []byte("...")...)
